@@ -68,8 +68,9 @@ def counts(r, *names):
 def gen_params(tier, seed):
     rnd = random.Random(seed)
     nsample, nshards = (1200, 2) if tier == "quick" else (40000, 8)
-    sample = [[rnd.randrange(1 << 20) for _ in range(3)] for _ in range(nsample)]
-    return {"pairs": True, "sample": sample, "nshards": nshards}
+    sample = [[rnd.randrange(1 << 20) for _ in range(3)] for _ in range(nsample // 5)]
+    clean = [[rnd.randrange(1 << 20) for _ in range(3)] for _ in range(nsample - nsample // 5)]
+    return {"pairs": True, "sample": sample, "sample_clean": clean, "nshards": nshards}
 
 
 def generate(params, work):
@@ -104,7 +105,7 @@ def explore(tier, seed, work, exe, cases_override=None):
     t0 = time.time()
     if cases_override is None:
         params = gen_params(tier, seed)
-        vlib.write_ndjson(pf, [dict(params, shard=0, sample=[], pairs=(tier != "quick"))])
+        vlib.write_ndjson(pf, [dict(params, shard=0, sample=[], sample_clean=[], pairs=(tier != "quick"))])
         with concurrent.futures.ThreadPoolExecutor(max_workers=2) as ex0:
             fl = ex0.submit(tlc_mode, "laws", {"PARAMS": pf})
             fp = ex0.submit(tlc_mode, "probes", {"OUT": probes_f})
@@ -220,24 +221,27 @@ def group_violations(bad_all, byid, sh_bad, work):
         kc = [key_class(c) for c in b["classes"]]
         blame = sorted(set(c for c in kc if c in single_bad))
         for name in (blame if blame else ["interaction:" + "+".join(kc)]):
-            g = groups.setdefault(name, {"n": 0, "forms": set(), "bindings": set(), "examples": [], "ids": []})
+            g = groups.setdefault(name, {"n": 0, "forms": set(), "forms1": set(), "bindings": set(), "examples": [], "ids": []})
             g["n"] += 1
             g["forms"].add(b["formname"])
+            if len(b["classes"]) == 1:
+                g["forms1"].add(b["formname"])      # the forms in which the element deviates when it stands alone
             g["bindings"].add(b["binding"])
             if len(g["examples"]) < 4 or (len(b["classes"]) == 1 and len(g["examples"]) < 8):
                 g["examples"].append(b)
                 g["ids"].append(b["id"])
     res = []
     for name, g in sorted(groups.items()):
-        forms = "all-forms" if "arguments" in g["forms"] else "command-only:" + ",".join(sorted(f.split(":", 1)[1] for f in g["forms"]))
+        fs = g["forms1"] or g["forms"]
+        forms = "all-forms" if "arguments" in fs else "command-only:" + ",".join(sorted(f.split(":", 1)[1] for f in fs))
         key = "opt:%s|%s" % (name, forms)
         ex = sorted(g["examples"], key=lambda b: (len(b["classes"]), b["form"]))[0]
-        payload = {"kind": "vectors", "key": key, "count": g["n"], "forms": sorted(g["forms"]), "bindings": sorted(g["bindings"]),
+        payload = {"kind": "vectors", "key": key, "count": g["n"], "forms": sorted(g["forms1"] or g["forms"]), "bindings": sorted(g["bindings"]),
                    "examples": g["examples"], "cases": [byid[i] for i in sorted(set(g["ids"]))]}
         p = vlib.save_replay(PID, "opt-" + vlib.digest(key), payload)
         shown = ex["command"] if ex["form"] != 1 else json.dumps([a for a in ex["arguments"]])
         res.append({"key": key, "what": "%s %s: %s (%d entries; forms %s; bindings %s)"
-                                        % (ex["formname"], shown, "; ".join(ex["diff"])[:400], g["n"], ",".join(sorted(g["forms"])), ",".join(sorted(g["bindings"]))),
+                                        % (ex["formname"], shown, "; ".join(ex["diff"])[:400], g["n"], ",".join(sorted(g["forms1"] or g["forms"])), ",".join(sorted(g["bindings"]))),
                     "replay": p})
     return res, disagree
 
